@@ -996,9 +996,15 @@ class C07(Check):
             if now != G.T0:
                 return None           # only the present can be visited
             before = self.impl.present()
-        got = self.impl.run_v2(doc, root_pem, now, guarded=reason is not None, tz=tz)
+        got = self.impl.run_v2(doc, root_pem, now, guarded=reason is not None, tz=tz,
+                               repeats=2 if (self.thorough or not label.startswith("flip")) else 1)
         if not self.owned:
             now = self.impl.present()
+        if got[0] == "unstable":
+            stats.observe((label, "unstable"))
+            vs.append(Violation("C07", "C07:repeated-validation-differs:" + label, case, None, got[1],
+                                {"every call": "the same result"}, "verdicts do not depend on earlier calls"))
+            return None
         if got[0] == "budget":
             with self.hangs.get_lock():
                 self.hangs.value += 1
